@@ -12,6 +12,7 @@ import Driver.C16
 import Driver.C20
 import Driver.C12
 import Driver.C05
+import Driver.TreeMx
 import Driver.Admission
 import Driver.ExitRace
 import Driver.C19
@@ -44,6 +45,7 @@ def main (args : List String) : IO UInt32 := do
       | "c12" => Driver.C12.run ops impl
       | "c05" => Driver.C05.run ops impl
       | "c07-tree" => Driver.C05.runC07 ops impl
+      | "c05-mx" => Driver.TreeMx.run ops impl
       | "admission" => Driver.Admission.run ops impl
       | "exitrace" => Driver.ExitRace.run ops impl
       | "c19" => Driver.C19.run ops impl
